@@ -120,5 +120,5 @@ Inv == MachineOk(m) /\ CollectorsOk(m)
 
 Emit == m.phase = "done" /\ m.status \in {"done", "exc", "capped", "halt"} =>
           PrintT(ToJson([prog |-> SubSeq(m.prog, 1, Len(m.prog) - Len(Helpers)), q |-> m.q, qv |-> m.qv,
-                         ans |-> m.ans, dynkeys |-> (IF Mode = "sim" THEN << <<"p2", 2>> >> ELSE <<>>), status |-> m.status, ball |-> m.ball, steps |-> m.steps]))
+                         ans |-> m.ans, dynkeys |-> (IF Mode = "sim" THEN << <<"p2", 2>> >> ELSE <<>>), status |-> m.status, ball |-> m.ball, balts |-> m.balts, steps |-> m.steps]))
 =============================================================================
